@@ -112,6 +112,19 @@ def _(c):
     c.modifies()
 
 
+for _meth in ("value", "to"):
+    @contract(Q + "." + _meth, ["C04", "C07"], name=f"Quantity.{_meth}[reciprocal-dimension-with-uncertainty]")
+    def _(c, meth=_meth):
+        _add(c, "recip", RECIP, meth, err=True)
+        c.requires("x != 0 and e >= 0")
+        if meth == "value":
+            c.ensures("close(result, 1 / (x * fa) / fb)", "value-is-reciprocal-whether-or-not-an-uncertainty-is-attached")
+            c.modifies()
+        else:
+            c.ensures("close(self.magnitude.value, 1 / (x * fa) / fb)", "value-is-reciprocal-whether-or-not-an-uncertainty-is-attached")
+        c.no_raise()
+
+
 @contract(Q + ".value", ["C04", "C07"], name="Quantity.value[other-dimension]")
 def _(c):
     _add(c, "other", OTHER, "value")
